@@ -33,6 +33,17 @@ CLAIMED = {
              "writes/truncates/reads, listings during updates, injected yields, shrinker active) is replayed in observed commit order on the sequential reference model and every reply must match.",
         design_ref="DESIGN.md 5/C03", note="trusted: Lean kernel, reference model, fstxn hooks and harness; schedules of the real runtime are sampled, not quantified over",
         technique="Lean 4 proof (2PL => commit-order serialization) + commit-order replay of observed concurrent histories on the reference model"),
+    "C04": dict(category="proof",
+        text="PARTIAL (for all histories: sampled). Lean theorem fsck_sound: the executable structure checker accepts a disk image only if the declarative well-formedness statement holds "
+             "(pointers in the data region, one owner per block, bitmaps exact, sizes agree with blocks, unique well-formed names, one name per live object, '.'/'..' right, tree rooted at the root). "
+             "Tie: the checker runs on the logical disk of the real server at quiescent points of sequential and concurrent histories and on recovered crash images (incl. mid-free), decoded with the repository's decoders.",
+        design_ref="DESIGN.md 5/C04", note="trusted: Lean kernel, harness image walk (obj.Log.Load + the repository's decoders), regenerated layout; histories and crash points sampled",
+        technique="Lean 4 proof (verified checker: fsck_sound) + checker run on images of the real server's disk"),
+    "C05": dict(category="proof",
+        text="PARTIAL (for all histories: sampled). Lean theorems over accepted images: marked = reachable for blocks and inodes at quiescence, nothing half-freed, delete-all leaves only the root's blocks, "
+             "no marked block without an owner in any image (crash images included), allocators = bitmaps. Ties: build-then-delete rounds with free-count equality, crash images during background freeing, reuse of half-freed numbers.",
+        design_ref="DESIGN.md 5/C05", note="trusted: Lean kernel, harness image walk and free-count reads; histories, crash points and schedules sampled",
+        technique="Lean 4 proof (verified checker + reclaim theorems) + build-then-delete and crash-during-free oracles on the real server"),
     "C06": dict(category="proof",
         text="Lean theorem ordered_no_deadlock on the waits-for model of the lock manager (ascending requests, fresh-allocation exception) + executable validators proved sound; the "
              "acquisition sequence of EVERY transaction of sequential and concurrent runs is validated by the Lean driver (ordering bugs are reported from one sequential execution), "
